@@ -163,6 +163,27 @@ def cover(F, R):
                     tb = set(bb for bb, pl, k in b.all_places() if any(pr[0] == 'field' and len(pr) > 3 and pr[3] == adt and pr[2] == f for pr in pl['p']))
                     if tb and not any(all(b.dominates(x, r) for r in b.return_blocks()) for x in tb):
                         gated.append(f)
+            # ... and the notification is really passed on: at least one call of the sibling method per holding field
+            from ..rules import op_sites
+            fam = {'init_effects': ('init', 'init_effects'), 'init': ('init', 'init_effects')}.get(m, (m,))
+            fwd = op_sites(F, b, lambda p, t: p.split('::')[-1] in fam)
+            if not missing and not gated:
+                # each holding field is the source of (at least) one forwarding call: the loop / iterator the call sits
+                # in was built from that field, or the call's receiver is the field itself
+                from .c02 import iter_source, loop_of
+                served = set()
+                for x in fwd:
+                    t = b.blocks[x]['term']
+                    srcs = [describe(b, t['args'][0], depth=10, at=x)] if t['args'] else []
+                    L = loop_of(b, x)
+                    if L is not None:
+                        srcs.append(iter_source(b, L))
+                    for f in fields:
+                        if any(('.' + f) in sdesc for sdesc in srcs):
+                            served.add(f)
+                unserved = [f for f in fields if f not in served]
+                if unserved:
+                    missing = ['%s (no %s call on its items)' % (f, '/'.join(fam)) for f in unserved]
             R.check(not missing and not gated, 'B.C16.cover', '%s::%s' % (adt, m),
                     ('%s::%s does not reach the effect-holding field(s) %s: effects stored there miss this notification' % (adt, m, missing)) if missing else
                     ('%s::%s can return before fanning out to %s: on that path the effects stored there miss this notification' % (adt, m, gated)),
